@@ -125,6 +125,45 @@ pub fn run(rng: &mut R, out: &mut Out) {
         h.ext = BlockExtData::default();
         one_header(out, &h);
     }
+    // related pairs: current and proposed that agree in everything but ONE field (a re-stated or slightly amended
+    // proposal), in every combination of representations — the header root must still pair the two distinct roots
+    for _ in 0..12 * scale {
+        let n = rng.gen_range(0..4);
+        let base = FullParams::new(gen::script(rng), gen::u32_edge(rng), elements::bitcoin::ScriptBuf::from_bytes(gen::bytes(rng, 22)), gen::bytes(rng, 30), (0..n).map(|_| gen::bytes(rng, 33)).collect());
+        let variants: Vec<FullParams> = vec![
+            base.clone(),
+            FullParams::new(gen::script(rng), base.signblock_witness_limit, base.fedpeg_program.clone(), base.fedpegscript.to_vec(), base.extension_space.to_vec()),
+            FullParams::new(base.signblockscript.clone(), base.signblock_witness_limit.wrapping_add(1), base.fedpeg_program.clone(), base.fedpegscript.to_vec(), base.extension_space.to_vec()),
+            FullParams::new(base.signblockscript.clone(), base.signblock_witness_limit, elements::bitcoin::ScriptBuf::from_bytes(gen::bytes(rng, 22)), base.fedpegscript.to_vec(), base.extension_space.to_vec()),
+            FullParams::new(base.signblockscript.clone(), base.signblock_witness_limit, base.fedpeg_program.clone(), gen::bytes(rng, 31), base.extension_space.to_vec()),
+            FullParams::new(base.signblockscript.clone(), base.signblock_witness_limit, base.fedpeg_program.clone(), base.fedpegscript.to_vec(), { let mut e = base.extension_space.to_vec(); e.push(gen::bytes(rng, 33)); e }),
+        ];
+        for (vi, v) in variants.iter().enumerate() {
+            for (cc, pc) in [(false, false), (true, true), (true, false), (false, true)] {
+                let cur = if cc { Params::Full(base.clone()).into_compact().unwrap() } else { Params::Full(base.clone()) };
+                let prop = if pc { Params::Full(v.clone()).into_compact().unwrap() } else { Params::Full(v.clone()) };
+                let mut h = gen::header(rng);
+                h.ext = BlockExtData::Dynafed { current: cur, proposed: prop, signblock_witness: vec![] };
+                out.count(&format!("header.related_pair.variant{}.{}{}", vi, if cc { "c" } else { "f" }, if pc { "c" } else { "f" }));
+                one_header(out, &h);
+            }
+        }
+        // a compact entry with an arbitrary elided root next to its twin with another one
+        let c1 = Params::Compact { signblockscript: base.signblockscript.clone(), signblock_witness_limit: base.signblock_witness_limit, elided_root: elements::dynafed::ElidedRoot::from_byte_array(gen::arr32(rng)) };
+        let c2 = Params::Compact { signblockscript: base.signblockscript.clone(), signblock_witness_limit: base.signblock_witness_limit, elided_root: elements::dynafed::ElidedRoot::from_byte_array(gen::arr32(rng)) };
+        for (a, b) in [(c1.clone(), c2.clone()), (c2.clone(), c1.clone()), (c1.clone(), c1.clone())] {
+            let mut h = gen::header(rng);
+            h.ext = BlockExtData::Dynafed { current: a, proposed: b, signblock_witness: vec![] };
+            out.count("header.related_pair.compact_twins");
+            one_header(out, &h);
+        }
+    }
+    // extension-space entries on both sides of the compact-size boundary
+    for l in [0usize, 1, 66, 252, 253, 254, 255, 256, 300, 65535, 65536] {
+        let f = FullParams::new(gen::script(rng), 3, elements::bitcoin::ScriptBuf::from_bytes(gen::bytes(rng, 22)), gen::bytes(rng, 10), vec![gen::bytes(rng, l), gen::bytes(rng, 2)]);
+        out.count("params.extension_entry_boundary");
+        one_params(out, &Params::Full(f));
+    }
     for _ in 0..200 * scale {
         one_header(out, &gen::header(rng));
     }
